@@ -38,9 +38,9 @@ theorem roundtrip_core : (e : Expr) → WF e → ∀ k, level e ≤ k → k ≤ 
     simp only [Expr.size] at hf
     obtain ⟨f', rfl⟩ : ∃ f', f = f' + 1 := ⟨f - 1, by omega⟩
     simp only [WF, okName] at hw
-    have hargs := roundtripArgs_core args hw.2 f' rest (by omega)
+    have hargs := roundtripArgs_core args hw.2.2 f' rest (by omega)
     simp only [parseAt, printE, List.append_assoc, List.cons_append, List.nil_append, List.singleton_append] at hargs ⊢
-    exact parseValue_call_ok hw.1.2 hargs
+    exact parseValue_call_ok hw.1.2 hw.2.1 hargs
   | .assert a o b m, hw => by
     refine climb _ 0 ?_ (fun _ rest => by simp [ValueStart, printE]) (fun _ => by simp [endsValue])
     intro f rest hf _ _
